@@ -284,4 +284,17 @@ def run_case(c):
             except Exception as e:
                 if not hg.is_final_coeff_assert(e):
                     fail('returns', f'compilation of the same OpChain objects for length {L + 1} raised {type(e).__name__}: {e}; chains={mod}', 'OpGraph.from_opchains:returns:recompiled')
+            # ... and after shifting every chain one site to the right (translation of the same objects)
+            shifted = [[ch[0], ch[1], ch[2], ch[3] + 1] for ch in mod]
+            for ch_obj in chains:
+                ch_obj.istart += 1
+            ref4 = hg.p_clean(hg.chains_poly(shifted, L + 1, oid_id))
+            try:
+                gp4 = hg.graph_poly(OpGraph.from_opchains(chains, L + 1, oid_id))
+                if not hg.p_eq(gp4, ref4):
+                    fail('polynomial', f'same OpChain objects shifted by one site: [[graph]] - [[chains]] = {hg.p_diff(gp4, ref4)}; chains={shifted}',
+                         'OpGraph.from_opchains:polynomial:recompiled')
+            except Exception as e:
+                if not hg.is_final_coeff_assert(e):
+                    fail('returns', f'compilation of the shifted OpChain objects raised {type(e).__name__}: {e}; chains={shifted}', 'OpGraph.from_opchains:returns:recompiled')
     return dict(failures=fails, nontrivial=nontrivial, key=key)
